@@ -10,7 +10,7 @@ from pyvc.ops import and_ as And, or_ as Or, not_ as Not, implies as Implies, it
 
 __all__ = ["task", "Sym", "Obj", "Opaque", "MsgVal", "PyRaise", "PathEnd", "EngineError", "ops", "And", "Or", "Not",
            "Implies", "ite", "Eq", "catch", "native", "construct", "call_method", "exc_is", "method", "opaque",
-           "BoundMethod", "Closure", "GenObj", "AbsGen", "BUILTIN_CLASSES", "REGISTRY", "Interp"]
+           "BoundMethod", "Closure", "GenObj", "AbsGen", "BUILTIN_CLASSES", "REGISTRY", "Interp", "callable_pair", "bare"]
 
 
 def catch(I, f, *args, **kwargs):
@@ -61,3 +61,25 @@ def recorder(log, name, ret=None):
         log.append((name, obj, tuple(args), dict(kwargs)))
         return ret(I, obj, args, kwargs) if callable(ret) else ret
     return m
+
+
+def callable_pair(b, name):
+    """a generator *function* for bisimulations: every call returns a fresh abstract generator (the k-th call on either
+    side returns the k-th generator of the pair list, so the two sides correspond by call order)"""
+    pairs = []
+
+    def mk(idx, side):
+        calls = [0]
+
+        def f(I_, a, k):
+            n = calls[0]
+            calls[0] += 1
+            while len(pairs) <= n:
+                p = b.absgen_pair(f"{name}@{len(pairs)}" if pairs else name)
+                p[0].canon_name = p[1].canon_name = name
+                pairs.append(p)
+            side.log.append((name + "()", n, "call", tuple(a)))
+            return pairs[n][idx]
+        f._canon_label = name
+        return native(f)
+    return mk(0, b.impl), mk(1, b.ref)
